@@ -40,6 +40,8 @@ res = {}
 for line in [l for f in LOGS for l in open(f)]:
     m = re.match(r"\[([^\]]+)\] demo with mutation: exit (\d+) ; tests: rc=(\S+) \((.*?)\) ; demo clean: exit (\d+)", line)
     if m:
+        if m.group(3) == "skipped" and "confirm" in res.get(m.group(1), {}):
+            continue   # a re-run of the checks only: keep the confirmation that includes the test-suite run
         res.setdefault(m.group(1), {})["confirm"] = dict(demo_with_change_exit=int(m.group(2)), tests_rc=m.group(3), tests_summary=m.group(4), demo_clean_exit=int(m.group(5)))
     m = re.match(r"\[([^\]]+)\] vcheck (\S+) exit=(\d+): (\d+) violations; (.*)", line)
     if m:
